@@ -32,7 +32,7 @@ func buildInstrumented(c *runCtx, out string, race bool) error {
 		}
 	}
 	eb, _ := json.Marshal(extra)
-	cmd = exec.Command(vin, "/repo", filepath.Join(c.Root, "harness", "instr", "shim.go.txt"), outDir)
+	cmd = exec.Command(vin, repoDir(), filepath.Join(c.Root, "harness", "instr", "shim.go.txt"), outDir)
 	cmd.Env = append(os.Environ(), "VINSTR_EXTRA="+string(eb))
 	if b, err := cmd.CombinedOutput(); err != nil {
 		return fmt.Errorf("vinstr: %v\n%s", err, b)
